@@ -359,15 +359,13 @@ def classify(r, text):
             model.append(c)
         else:
             foreign.append(c)
-    if cand:
+    if cand or foreign:
+        # a failed check located in std / a dependency (e.g. `capacity overflow` in alloc::raw_vec reached from a decoder)
+        # is a candidate as well: the native replay decides whether the real code panics there
         r.verdict = "candidate"
-        r.cand = cand
+        r.cand = cand + foreign
         return
-    if model:
-        r.verdict, r.reason = "inconclusive", "failed check inside an environment model: " + model[0]["desc"] + " @ " + model[0]["loc"]
-        return
-    r.verdict = "inconclusive"
-    r.reason = "failed check outside /repo and the harness: " + foreign[0]["desc"] + " @ " + foreign[0]["loc"]
+    r.verdict, r.reason = "inconclusive", "failed check inside an environment model: " + model[0]["desc"] + " @ " + model[0]["loc"]
 
 
 # ------------------------------------------------------------------------------------------------
@@ -387,7 +385,9 @@ def make_replay(r, pid, slot, logs_dir):
            "-Z", "concrete-playback", "--concrete-playback=print"]
     cmd += list(gen.crate_kani_flags(h.crate))
     if h.unwindset:
-        extra, _ = resolve_unwindset(h, slot, [c for c in cmd if c not in ("-Z", "concrete-playback", "--concrete-playback=print")] + ["-Z", "stubbing"], log_path)
+        base = ["cargo", "kani", "--harness", find_harness_path(h), "--exact",
+                "--target-dir", target_dir(h.crate, slot), "-Z", "stubbing"] + list(gen.crate_kani_flags(h.crate))
+        extra, _ = resolve_unwindset(h, slot, base, log_path)
         if extra:
             cmd += extra
     rc, timed_out, wall = run_cmd(cmd, crate_workdir(h.crate), h.timeout * 2, h.mem_gb, log_path)
@@ -494,7 +494,7 @@ def main():
     ap = argparse.ArgumentParser()
     ap.add_argument("prop")
     ap.add_argument("--tier", default=os.environ.get("VERIF_TIER", "quick"), choices=["quick", "thorough"])
-    ap.add_argument("--jobs", type=int, default=int(os.environ.get("VERIF_JOBS", "6")))
+    ap.add_argument("--jobs", type=int, default=int(os.environ.get("VERIF_JOBS", "8")))
     ap.add_argument("--only", default=None)
     ap.add_argument("--replay", default=None)
     ap.add_argument("--list", action="store_true")
